@@ -225,6 +225,108 @@ let hex_case line =
      | OutOfFuel -> print_endline "FUEL")
   | _ -> print_endline "BAD"
 
+(* ------------------------------------------------------------------ text *)
+(* the C string inside a byte list: the bytes before the first NUL *)
+let rec cstring = function [] -> [] | c :: r -> if c = N0 then [] else c :: cstring r
+let mem_of l = cstring l @ [N0]          (* exactly strlen + 1 bytes, as the harness allocates *)
+
+let res_tag = function Crash -> "CRASH" | OutOfFuel -> "FUEL" | _ -> "?"
+
+let split_case line =
+  match split_on ' ' line with
+  | [seph; lh] ->
+    let sep = cstring (unhex seph) in
+    let m = mem_of (unhex lh) in
+    let len = n_of_int (List.length m - 1) in
+    (match split_line m sep N0 len with
+     | Ok (m', args) ->
+       let buf = Buffer.create 64 in
+       Buffer.add_string buf (Printf.sprintf "OK %d" (List.length args));
+       let bad = ref None in
+       List.iter (fun a ->
+         match cstr_at m' a with
+         | Ok s -> Buffer.add_char buf ' '; Buffer.add_string buf (hex s)
+         | r -> bad := Some (res_tag r)) args;
+       (match !bad with Some t -> print_endline t | None -> print_endline (Buffer.contents buf))
+     | Err e ->
+       let code = if e = e_quote then int_of_z z_SPLIT_LINE_UNMATCHED_QUOTE
+         else if e = e_escape then int_of_z z_SPLIT_LINE_ESCAPE else 0 in
+       Printf.printf "ERR %d\n" code
+     | r -> print_endline (res_tag r))
+  | _ -> print_endline "BAD"
+
+let sort_case line =
+  let m0 = mem_of (unhex line) in
+  match trim m0 N0 with
+  | Ok m1 ->
+    let m = mem_of m1 in
+    (match m with
+     | c :: _ when c = N0 || c = n_of_int 35 -> print_endline "SKIP"
+     | _ ->
+       (match sort_line m with
+        | Ok ((prio, fl), name) ->
+          let do_glob = ref false and path_glob = ref false and flags = ref 0 in
+          List.iter (function
+            | F_glob_no_path -> do_glob := true; path_glob := false
+            | F_glob -> do_glob := true; path_glob := true
+            | F_dont_fragment -> flags := !flags lor int_of_n c_SQFS_BLK_DONT_FRAGMENT
+            | F_dont_compress -> flags := !flags lor int_of_n c_SQFS_BLK_DONT_COMPRESS
+            | F_dont_deduplicate -> flags := !flags lor int_of_n c_SQFS_BLK_DONT_DEDUPLICATE
+            | F_nosparse -> flags := !flags lor int_of_n c_SQFS_BLK_IGNORE_SPARSE) fl;
+          Printf.printf "OK %s %d%d %d %s\n" (string_of_z prio) (if !do_glob then 1 else 0)
+            (if !path_glob then 1 else 0) !flags (hex name)
+        | Err _ -> print_endline "ERR"
+        | r -> print_endline (res_tag r)))
+  | Err _ -> print_endline "ERR"
+  | r -> print_endline (res_tag r)
+
+let xdec_case line =
+  match xattr_decode (mem_of (unhex line)) with
+  | Ok v -> Printf.printf "OK %s\n" (hex v)
+  | Err _ -> print_endline "ERR"
+  | r -> print_endline (res_tag r)
+
+(* xattr_open_map_file: istream_get_line (LTRIM | RTRIM | SKIP_EMPTY) glue around the model's line dispatch *)
+exception Stop of Stdlib.String.t
+let xfile_case line =
+  let data = unhex line in
+  (* split at '\n'; a last line without '\n' counts when it is not empty; a '\r' before '\n' is dropped *)
+  let nl = n_of_int 10 and cr = n_of_int 13 in
+  let rec lines acc cur = function
+    | [] -> List.rev (if cur = [] then acc else (List.rev cur, false) :: acc)
+    | c :: r when c = nl -> lines ((List.rev cur, true) :: acc) [] r
+    | c :: r -> lines acc (c :: cur) r in
+  let strip_cr (l, term) =
+    if term then (match List.rev l with c :: r when c = cr -> List.rev r | _ -> l) else l in
+  let pats = ref [] in                (* newest first: (path, entries newest first) *)
+  (try
+    List.iter (fun lt ->
+      let l = strip_cr lt in
+      match trim (mem_of l) N0 with
+      | Ok m1 ->
+        let m = mem_of m1 in
+        if List.length m > 1 then
+          (match xattr_line m (!pats <> []) with
+           | Ok (XL_file p) -> pats := (p, []) :: !pats
+           | Ok (XL_attr (k, v)) ->
+             (match !pats with
+              | (p, es) :: r -> pats := (p, (k, v) :: es) :: r
+              | [] -> raise (Stop "MODEL-INCONSISTENT"))
+           | Ok XL_comment -> ()
+           | Err _ -> raise (Stop "ERR")
+           | r -> raise (Stop (res_tag r)))
+      | Err _ -> raise (Stop "ERR")
+      | r -> raise (Stop (res_tag r))) (lines [] [] data);
+    let buf = Buffer.create 128 in
+    Buffer.add_string buf "OK ";
+    List.iter (fun (p, es) ->
+      Buffer.add_string buf (hex p); Buffer.add_char buf '{';
+      List.iter (fun (k, v) -> Buffer.add_string buf (hex k); Buffer.add_char buf '=';
+                  Buffer.add_string buf (hex v); Buffer.add_char buf ',') es;
+      Buffer.add_string buf "};") !pats;
+    print_endline (Buffer.contents buf)
+  with Stop s -> print_endline s)
+
 let () =
   let mode = if Array.length Sys.argv > 1 then Sys.argv.(1) else "hl" in
   let f = match mode with
@@ -235,6 +337,10 @@ let () =
     | "b64" -> b64_case false
     | "b64i" -> b64_case true
     | "hex" -> hex_case
+    | "split" -> split_case
+    | "sort" -> sort_case
+    | "xdec" -> xdec_case
+    | "xfile" -> xfile_case
     | _ -> failwith "unknown mode" in
   try
     while true do
